@@ -7,6 +7,7 @@ import (
 	"crypto/sha256"
 	"encoding/json"
 	"fmt"
+	"github.com/dtn7/dtn7-go/verif/par"
 	"os"
 	"path/filepath"
 	"sort"
@@ -57,6 +58,19 @@ func Start(prop, tier, level string) *Run {
 	r := &Run{Prop: prop, Tier: tier, Level: level, start: time.Now(), viol: map[string][]Violation{},
 		violCount: map[string]int{}, counters: map[string]int64{}, sampleCap: 6, known: map[string]string{}, Exhaustive: true}
 	r.loadKnown()
+	// internal deadline: VERIF_DEADLINE_S, default 900 s (quick) / 3600 s (thorough); 0 = none
+	d := 900
+	if tier == "thorough" {
+		d = 3600
+	}
+	if v := os.Getenv("VERIF_DEADLINE_S"); v != "" {
+		d, _ = strconv.Atoi(v)
+	}
+	_ = os.Setenv("VERIF_DEADLINE_S", strconv.Itoa(d))
+	if d > 0 {
+		r.Deadline = r.start.Add(time.Duration(d) * time.Second)
+		par.SetDeadline(r.Deadline)
+	}
 	return r
 }
 
@@ -132,6 +146,11 @@ func (r *Run) Capped(what string) {
 func (r *Run) Violation(key, kind, desc string, c interface{}) {
 	r.mu.Lock()
 	defer r.mu.Unlock()
+	if strings.HasSuffix(key, "/vacuous") && par.DeadlineHit() {
+		// a part that explored nothing because the internal deadline stopped the run is a cap, not a vacuous check
+		r.notes = append(r.notes, "part not run (internal deadline): "+desc)
+		return
+	}
 	r.violCount[key]++
 	if len(r.viol[key]) < 3 {
 		r.viol[key] = append(r.viol[key], Violation{Property: r.Prop, Key: key, Desc: desc, Kind: kind, Case: c})
@@ -150,6 +169,10 @@ func (r *Run) Violations() int {
 func (r *Run) Finish(cov map[string]interface{}, assumptions []string) int {
 	r.mu.Lock()
 	defer r.mu.Unlock()
+	if par.DeadlineHit() {
+		r.Exhaustive = false
+		r.capped = append(r.capped, fmt.Sprintf("internal deadline of %s s reached: the remaining cases of this run were not executed (exit status is unaffected)", os.Getenv("VERIF_DEADLINE_S")))
+	}
 	wall := time.Since(r.start).Seconds()
 	keys := make([]string, 0, len(r.viol))
 	for k := range r.viol {
